@@ -2,7 +2,7 @@
 """usage: seedstore.py PROP i detected_by_text  -- copies a confirmed seeded change into /verif/seeded/PROP-i"""
 import json, os, shutil, subprocess, sys
 prop, i, det = sys.argv[1], sys.argv[2], sys.argv[3]
-src = '/tmp/seed/%s/%s' % (prop, os.environ.get('SEED_DIR', 'seed_out'))
+src = '%s/%s/%s' % (os.environ.get('SEED_ROOT', '/tmp/seed'), prop, os.environ.get('SEED_DIR', 'seed_out'))
 dst = '/verif/seeded/%s-%s' % (prop, os.environ.get('SEED_NAME', i))
 os.makedirs(dst, exist_ok=True)
 shutil.copy('%s/change_%s.diff' % (src, i), dst + '/patch.diff')
